@@ -492,6 +492,12 @@ func c08Inner(t *T, kind int) (hackpadfs.FS, func()) {
 		return fs, func() {}
 	}
 	dir, cleanup := newScratch(t)
+	if kind == 2 {
+		// a view of a host directory that has not been made yet: the one file system here whose root can be absent
+		fs, err := hos.NewFS().Sub(strings.TrimPrefix(dir, "/") + "/absent")
+		must(t, err)
+		return fs, cleanup
+	}
 	fs, err := hos.NewFS().Sub(strings.TrimPrefix(dir, "/"))
 	must(t, err)
 	populate(t, fs)
@@ -503,6 +509,9 @@ func c08Op(t *T, helper string, g *fsGen) Op {
 	switch helper {
 	case "OpenFile":
 		o.Flag = g.flags()
+		if t.C.Chance(1, 5) {
+			o.Flag = hackpadfs.FlagReadWrite | hackpadfs.FlagCreate | hackpadfs.FlagTruncate // exactly what Create() opens with
+		}
 		o.Data = g.data()
 	case "Create", "WriteFullFile":
 		o.Data = g.data()
@@ -525,10 +534,24 @@ func runC08(t *T) {
 		return
 	}
 	innerKind := c.Draw(2)
+	if innerKind == 1 && c.Chance(1, 8) {
+		innerKind = 2 // os.FS view whose root is absent; the operand is the root itself
+	}
 	helper := c08Helpers[c.Weighted(6, 6, 5, 3, 3, 2, 2, 2, 2, 1, 2, 2, 1, 1, 2, 2, 1, 1)]
 	rel := capHelperIfs[helper]
 	var mask []string
-	for _, i := range rel {
+	from := rel
+	if c.Chance(1, 5) {
+		// a subset of the interfaces ANOTHER helper looks at (the wrapper types exist for those): a helper must not
+		// start to depend on interfaces outside its own set in a way that changes what it does
+		other := c08Helpers[c.Draw(len(c08Helpers))]
+		if sib, ok := map[string][]string{"OpenFile": {"Create", "WriteFullFile"}, "Create": {"OpenFile"}, "WriteFullFile": {"Create"}, "Mkdir": {"MkdirAll"}, "MkdirAll": {"Mkdir"},
+			"Remove": {"RemoveAll"}, "RemoveAll": {"Remove"}, "Stat": {"Lstat", "LstatOrStat"}, "Lstat": {"Stat"}, "LstatOrStat": {"Stat"}, "ReadFile": {"OpenFile"}, "ReadDir": {"OpenFile"}}[helper]; ok && c.Chance(2, 3) {
+			other = sib[c.Draw(len(sib))] // preferably a helper of the same family: that is where a "counterpart" fallback gets added
+		}
+		from = capHelperIfs[other]
+	}
+	for _, i := range from {
 		if c.Chance(1, 2) {
 			mask = append(mask, i)
 		}
@@ -553,16 +576,25 @@ func runC08(t *T) {
 	pre := takeSnapshot(innerT, snapOpts{Special: true})
 	g.observe(pre)
 	o := c08Op(t, helper, g)
+	if innerKind == 2 {
+		// only the root as the operand: what the fallbacks make of deeper paths below a missing root (a parent they
+		// cannot create one level at a time) is not comparable with os.MkdirAll's way
+		o.P = "."
+		if o.Q != "" {
+			o.Q = "."
+		}
+		t.Stat("c08:absent-root")
+	}
 	if (o.Kind == "Remove" || o.Kind == "RemoveAll" || o.Kind == "Rename") && (o.P == "." || o.Q == ".") {
 		return
 	}
-	if innerKind == 1 && o.Kind == "Symlink" {
+	if innerKind >= 1 && o.Kind == "Symlink" {
 		return // symbolic links of the OS-backed FS are outside the snapshot's reach
 	}
 	if helper == "RemoveAll" && coreM.faultAt >= 0 && c.Chance(1, 2) {
 		coreM.notExistBelow = o.P
 	}
-	t.Logf("inner=%s helper=%s exposed=%v of %v fault-at=%d op=%s", []string{"mem", "os.FS"}[innerKind], helper, mask, rel, coreM.faultAt, o)
+	t.Logf("inner=%s helper=%s exposed=%v of %v fault-at=%d op=%s", []string{"mem", "os.FS", "os.FS view of an absent directory"}[innerKind], helper, mask, rel, coreM.faultAt, o)
 	call := func(fs hackpadfs.FS, core *capCore) Out {
 		if o.Kind == "Sub" {
 			sub, err := hackpadfs.Sub(fs, o.P)
@@ -597,7 +629,7 @@ func runC08(t *T) {
 	sm := takeSnapshot(innerM, snapOpts{Special: true})
 	st := takeSnapshot(innerT, snapOpts{Special: true})
 	sig := "C08:" + helper + ":" + opSig(Op{Kind: o.Kind, P: o.P, Q: o.Q, Flag: o.Flag & 3}, pre) + ":exposed=" + capKey(mask)
-	where := fmt.Sprintf("%s on %s exposing only %v (of %v)", o, []string{"mem", "os.FS"}[innerKind], mask, rel)
+	where := fmt.Sprintf("%s on %s exposing only %v (of %v)", o, []string{"mem", "os.FS", "os.FS view of an absent directory"}[innerKind], mask, rel)
 	if coreM.fired == "" {
 		// Oracle A
 		if errors.Is(got.Err, hackpadfs.ErrNotImplemented) && !errors.Is(want.Err, hackpadfs.ErrNotImplemented) {
